@@ -73,6 +73,9 @@ func c07Units(tier string, seed int64) []Unit {
 				units = append(units, Unit{Name: fmt.Sprintf("C07/prog=%d/checks=%d/seed=%d", pi, n, sd), Run: func(c *Ctx) {
 					prog := mk()
 					cfg := Config{Checks: n, Seed: sd, ShrinkMS: -1, NoFailFile: false, Name: "TestC07"}
+					if pi == 4 {
+						cfg.ShrinkMS = 1500 // state-machine minimization is slow: a fixed budget on the virtual clock is deterministic too
+					}
 					d := &LazyDFS{Prog: prog, Cfg: cfg, Alphabet: alpha, P: n + 3, MaxDev: 2, OnlyUpToFirstFalsified: true, PreRun: CleanFailFiles}
 					if quick {
 						if n == 20 {
@@ -200,6 +203,7 @@ func c07Progs() []func() *LazyProgram {
 		func() *LazyProgram { return progThreshold(100) },
 		func() *LazyProgram { return progTwoSites() },
 		func() *LazyProgram { return rejectionProgs()[0] },
+		func() *LazyProgram { return progCaseCollidingActions() },
 	}
 }
 
@@ -218,7 +222,11 @@ func SeedRunTranscript(pi int, sd uint64) string {
 	}
 	CleanFailFiles()
 	env := NewEnv(nil, prog.Base)
-	log := RunCheck(prog, env, Config{Checks: 30, Seed: sd, ShrinkMS: -1, Name: "TestC07x"})
+	shrinkMS := -1
+	if pi == 4 {
+		shrinkMS = 1500
+	}
+	log := RunCheck(prog, env, Config{Checks: 30, Seed: sd, ShrinkMS: shrinkMS, Name: "TestC07x"})
 	t := invTranscript(env.Invs) + "\n" + tbTranscript(log.TB) + "\n" + filesTranscript(log.Files)
 	CleanFailFiles()
 	// the fail file's name carries the process id by design
@@ -239,7 +247,7 @@ func init() {
 	Register(&Check{
 		ID:    "C07",
 		Level: "model_checking",
-		Rule: "E2 lazyprop over 4 base programs x checks {1,5,20} x base seeds (incl. seeds near 2^64) x every index of the first falsified test case with 0-2 skipped cases before it (deviation-bounded DFS); " +
+		Rule: "E2 lazyprop over 5 base programs (incl. a state machine whose action names differ only by case) x checks {1,5,20} x base seeds (incl. seeds near 2^64) x every index of the first falsified test case with 0-2 skipped cases before it (deviation-bounded DFS); " +
 			"run 2 uses the seed printed by run 1 and must draw the failing case's values first and fail after 0 tests; failing runs (and 1 in 4 others) are executed twice and must agree in test cases, report and fail file; 8 seeded runs are repeated in two other processes each and must agree byte for byte. " +
 			"distinct = distinct (class, index of failing case, passed-before count) per unit; non-trivial = a failure was reported and reproduced.",
 		Assumptions: []string{"virtual clock (1 ms per property invocation) makes reported durations and fail-file names deterministic"},
